@@ -28,7 +28,9 @@ Definition term_of_clsobs (o : clsobs) : term :=
 
 Definition c11_admissible (early late : list pystr) (cs : list acls) : bool :=
   let known := early ++ late ++ map ac_name cs in
-  forallb (fun c => forallb (fun f => wf_ty false (af_ty f)
+  nodup_str known && forallb ident_ok known
+  && forallb (fun c => nodup_str (map af_name (ac_own c))) cs
+  && forallb (fun c => forallb (fun f => wf_ty false (af_ty f) && ident_ok (af_name f) && wf_names known (af_ty f)
                                       && forallb (mem known) (names_of (af_ty f))
                                       && forallb (mem early) (nt_names (af_ty f))) (ac_own c)) cs
   && chain_executable early cs.
